@@ -29,7 +29,7 @@ CHECKS = {
          "heap blocks are zero-filled in these runs so that reads beyond the written length are deterministic"),
  "C06": ("translation_validation", "for every machine state x every byte 0..255 and END x data contexts (strings empty / full / random, scalars set) one forced step of the emitted C on a deep copy, compared (return code, resulting state, outputs, hook calls, pointer advance) with an abstract machine executing the DFState/DFTransition/Action objects of the same compilation", "3 C06", "per-program translation validation by forced single-step execution against an abstract machine",
          "vf/am.py is the reading of what the compiled machine means; DONE postponed by one call after a break is tolerated (judged under C10)"),
- "C07": ("exploration", "emitted C of `/R/; end;` for enumerated small and random larger regexes (text and binary form): acceptance observed at every prefix through end() on a state copy, feed codes and FAIL pointer, and forced one-byte sweeps over all 256 byte values from several automaton states, compared with a Brzozowski-derivative engine", "3 C07", "reference-model monitor (regex derivatives) over recorded executions of sanitized emitted C",
+ "C07": ("exploration", "emitted C of `/R/; end;` for enumerated small and random larger regexes (text and binary form): acceptance observed at every prefix through end() on a state copy, feed codes and FAIL pointer, and forced one-byte sweeps over all 256 byte values from several automaton states, compared with a Brzozowski-derivative engine; closed regexes also alone in a parser (`/R/;`), end() at every prefix", "3 C07", "reference-model monitor (regex derivatives) over recorded executions of sanitized emitted C",
          "vf/rx.py is the language definition (documented dialect)"),
  "C13": ("exploration", "generated programs and their macro-ized twins (slices extracted into nested macros with parameters of every kind; re-entrant and name-capturing calls with hand-expanded twins) compiled by the real compiler and linked into one sanitized binary: verdicts equal, per-byte traces identical; mutated calls (extra/missing/wrong-kind/undefined arguments) must be diagnosed", "3 C13", "differential runtime monitoring of emitted C, inlined twin as oracle, plus exception monitor on argument errors",
          "macro-ization is the harness's own AST transformation"),
